@@ -11,6 +11,7 @@ DISPATCH_CORE = {'do_process_helper', 'do_process_event'}
 QUEUE_FIELDS = {'m_events_queue': 'MSGQ', 'm_deferred_events_queue': 'DEFQ', 'events': 'POOL'}
 MUTATORS = {'push_back', 'push_front', 'pop_front', 'pop_back', 'erase', 'clear', 'insert', 'emplace_back', 'emplace_front',
             'emplace', 'swap', 'assign', 'resize', 'operator=', 'set_capacity', 'rotate', 'linearize', 'rerase', 'rinsert'}
+OP_HINTS = {('DEFQ', 'sort'): ' (an unstable sort does not keep the arrival order of deferred events that carry equal sequence tags; the re-ordering must be std::stable_sort)'}
 ALGOS = {'stable_sort', 'sort', 'for_each', 'remove', 'remove_if', 'reverse', 'unique', 'partition', 'stable_partition', 'rotate', 'copy', 'transform', 'swap_ranges', 'shuffle', 'nth_element', 'partial_sort'}
 
 # (queue, op) -> functions (plain names) allowed to perform it; one line of reason each
@@ -102,7 +103,7 @@ def queues(F, R):
             R.anchor('queue-op:%s:%s:%s' % (be if q != 'POOL' else 'backmp11', q, op))
             R.ob('C04.queue-ops', ok, {'func': f.q, 'queue': q, 'op': op, 'at': f.at(i), 'role': allowed.get(f.n)})
             if not ok:
-                R.find('C04.queue-ops', f, '%s.%s' % (q, op), '%s performs %s on the %s; allowed only in %s' % (f.n, op, {'MSGQ': 'message queue', 'DEFQ': 'deferred queue', 'POOL': 'event pool'}[q], sorted(allowed) or 'no function'), where=f.at(i))
+                R.find('C04.queue-ops', f, '%s.%s' % (q, op), '%s performs %s on the %s; allowed only in %s' % (f.n, op, {'MSGQ': 'message queue', 'DEFQ': 'deferred queue', 'POOL': 'event pool'}[q], sorted(allowed) or 'no function') + OP_HINTS.get((q, op), ''), where=f.at(i))
         # dequeue protocol in the functions that pop
         pops = [x for x in muts if x[2] == 'pop_front']
         if pops:
